@@ -17,3 +17,4 @@ pub mod proc_sx;
 pub mod arrl_sx;
 pub mod recl_sx;
 pub mod procarr_sx;
+pub mod jmpl_sx;
